@@ -51,6 +51,50 @@ E2_META = {
 }
 
 
+OTHER_RULES = {
+    "C10": [
+        ("with-shadows-lexical-binders", lambda s, d: "with" in s.split("|")[1]),
+        ("inherit-in-rec-set-reported-cyclic", lambda s, d: "rec_inherit_a" in s),
+    ],
+    "C11": [
+        ("with-shadows-lexical-binders", lambda s, d: "with" in s.split("|")[2]),
+        ("lambda-argument-not-writable", lambda s, d: "lam_arg" in s),
+        ("cli-sibling-and-outer-scope-fallbacks", lambda s, d: True),
+    ],
+    "C12": [
+        ("bare-segment-trailing-newline", lambda s, d: s.startswith("accepts-malformed")),
+        ("keyword-written-bare", lambda s, d: any(("'%s'" % k) in s for k in ("if", "then", "else", "let", "in", "with", "assert", "rec", "inherit"))),
+        ("quoted-vs-bare-name", lambda s, d: True),
+    ],
+    "C13": [
+        ("negative-number-in-list", lambda s, d: "[ -" in d or " -" in d and "[" in d),
+        ("float-exponent-form", lambda s, d: "e+" in d or "e-" in d),
+    ],
+}
+OTHER_META = {
+    "with-shadows-lexical-binders": ("a `with` environment is consulted before enclosing let / rec / formal binders", "resolution.py:scopes_for_owner appends the with-environment scope after the lexical scopes and identifier.py:_resolve_identifier searches innermost-last, so `with` wins over every lexical binder outside it"),
+    "inherit-in-rec-set-reported-cyclic": ("`rec { inherit a; }` reached through the document reports a cyclic inherit instead of the enclosing binding", "set.py:AttributeSet.__getitem__ builds the chain scopes_for_owner(self)+[self] and for a rec set scopes_for_owner already contains the set itself, so the inherit finds itself"),
+    "lambda-argument-not-writable": ("assignment through a reference bound by `(a: …) v` does not change the document", "resolution.py:function_call_scope builds a throw-away Binding for the positional argument; the setter updates that copy"),
+    "cli-sibling-and-outer-scope-fallbacks": ("the CLI rewrites a sibling / outer binding that Nix scoping does not designate (non-rec sibling, outermost let instead of the innermost binder)", "cli/manipulations.py:_set_value_in_attrset falls back to let_bindings of the *top-level* expression and to sibling_binding of a non-recursive set"),
+    "bare-segment-trailing-newline": ("a bare path segment followed by a newline is accepted and written unquoted (the name silently loses the newline)", "cli/manipulations.py:_NPATH_IDENTIFIER_RE uses `$`, which matches before a trailing newline"),
+    "keyword-written-bare": ("Nix keywords are accepted as bare path segments and written bare (`{ if = 1; }`), which is not valid Nix", "cli/manipulations.py:_format_attr_name only checks the identifier regex"),
+    "quoted-vs-bare-name": ("bare and quoted spellings of the same name are different keys: duplicate definitions / KeyError on rm", "cli/manipulations.py:_find_binding/_find_named_binding compare the rendered spelling, not the decoded name"),
+    "negative-number-in-list": ("negative numbers are rendered bare inside lists (`[ -1 ]`), a syntax error", "list.py:NixList.rebuild does not parenthesise unary minus"),
+    "float-exponent-form": ("floats whose repr uses an exponent render as `1e-07` / `1e+16`, which Nix reads as something else", "expression.py:coerce_expression uses repr(value)"),
+}
+
+
+def _other_assign(f):
+    s, d = f["sig"], f.get("detail", "")
+    for name, pred in OTHER_RULES.get(f["prop"], []):
+        try:
+            if pred(s, d):
+                return f"{f['prop']}-{name}"
+        except Exception:
+            continue
+    return None
+
+
 def _e2_assign(f):
     s, d = f["sig"], f.get("detail", "")
     for name, pred in E2_RULES:
@@ -65,6 +109,8 @@ def _e2_assign(f):
 def assign(f):
     if isinstance(f.get("case"), dict) and f["case"].get("kind") in ("e2", "c19", "c14"):
         return _e2_assign(f)
+    if f["prop"] in OTHER_RULES:
+        return _other_assign(f)
     text = _text(f)
     if isinstance(f.get("case"), dict) and f["case"].get("kind") == "e1" and text[:1] in (" ", "\t", "\n"):
         return f"{f['prop']}-leading-whitespace"
@@ -83,6 +129,8 @@ def meta_for(fid, f):
     if fid in META:
         return dict(META[fid])
     suffix = fid.split("-", 1)[1] if "-" in fid else fid
+    if suffix in OTHER_META:
+        return {"summary": OTHER_META[suffix][0], "root_cause": OTHER_META[suffix][1], "why_not_fixed": "recorded, not repaired in this session; see DESIGN.md section 3"}
     if suffix in E2_META:
         return {"summary": E2_META[suffix][0], "root_cause": E2_META[suffix][1], "why_not_fixed": "recorded, not repaired in this session (behavioural change wider than a minimal patch); see DESIGN.md section 3"}
     return {
